@@ -50,6 +50,7 @@ KSYNC_IR2C = ['--thread', '^@thread_entry_',
     '--map', r'^@_ZN6photon5waitq10resume_oneEi$=K_cv_notify_one', '--map', r'^@_ZN6photon5waitq10resume_allEi$=K_cv_notify_all',
     '--blockingc', r'^@_ZN6photon9semaphore18wait_interruptibleEmNS_7TimeoutE$=K_sem_wait_begin,K_sem_wait_end',
     '--map', r'^@_ZN6photon9semaphore10try_resumeEm$=K_sem_try_resume',
+    '--map', r'^@_ZN6photon16thread_interruptEPNS_6threadEi$=K_thread_interrupt',
     '--blockingc', r'^@_ZN6photon12thread_yieldEv$=K_yield_begin,K_yield_end',
     '--blockingc', r'^@_ZN6photon13thread_usleepENS_7TimeoutE$=K_usleep_begin,K_usleep_end']
 
